@@ -462,6 +462,40 @@ namespace {
                 for ( int i = 0; i != k + 1; ++i )
                     seq.push_back( make( OP_OUT, c, 0, 0, bytes() ) );
             }
+            else if ( ( prop == "C01" || prop == "C07" ) && db.queue_size && chance( 50 ) )
+            {
+                // fill the write queue to the brim: the octets stored per prepared write (value + handle + offset + length) add up to
+                // the queue size -1, +0, +1, +2, then further prepares and an execute
+                const int h      = handle_of_kind( vg::A_VALUE );
+                const int target = db.queue_size + rnd( -1, 2 );
+                int       used   = 0;
+                while ( used < target )
+                {
+                    const int room = target - used;
+                    int       n    = rnd( 0, std::min( db.max_mtu, 23 ) - 5 );
+                    if ( room - ( n + 6 ) < 6 )
+                        n = room - 6;          // the last one hits the target exactly
+                    if ( n < 0 || n > db.max_mtu - 5 )
+                        break;
+                    bytes pw{ 0x16 };
+                    put16( pw, h );
+                    put16( pw, 0 );
+                    const bytes d = rnd_bytes( n, n );
+                    pw.insert( pw.end(), d.begin(), d.end() );
+                    seq.push_back( make( OP_REQ, c, 0, 0, pw ) );
+                    used += n + 6;
+                }
+                for ( int i = rnd( 1, 3 ); i > 0; --i )
+                {
+                    bytes pw{ 0x16 };
+                    put16( pw, h );
+                    put16( pw, 0 );
+                    const bytes d = rnd_bytes( 0, 18 );
+                    pw.insert( pw.end(), d.begin(), d.end() );
+                    seq.push_back( make( OP_REQ, c, 0, 0, pw ) );
+                }
+                seq.push_back( make( OP_REQ, c, 0, 0, bytes{ 0x18, static_cast< std::uint8_t >( rnd( 0, 1 ) ) } ) );
+            }
             else if ( ( prop == "C06" || prop == "C07" || prop == "C05" || prop == "C09" ) && db.queue_size )
             {
                 // prepare (1..3 parts), execute, read back
@@ -526,7 +560,7 @@ namespace {
             case OP_REQ:
                 o.data = request( weighted( request_weights() ) );
                 // size of the output buffer handed to the server: 0 = server maximum, else explicit (>= 23)
-                o.a = chance( 80 ) ? 0 : rnd( 23, db.max_mtu );
+                o.a = chance( 75 ) ? 0 : rnd( 23, db.max_mtu + 64 );
                 break;
             case OP_SEC: o.a = rnd( 0, 2 ); break;
             case OP_SET:
@@ -549,7 +583,7 @@ namespace {
                 o.b = rnd( 0, 3 );
             }
             break;
-            case OP_OUT: o.a = chance( 85 ) ? 0 : rnd( 0, db.max_mtu ); break;
+            case OP_OUT: o.a = chance( 75 ) ? 0 : rnd( 0, db.max_mtu + 64 ); break;
             case OP_WALK: {
                 o.a = ( prop == "C03" ) ? rnd( 2, 3 ) : weighted( { { 35, 0 }, { 40, 1 }, { 15, 2 }, { 10, 3 } } );
                 range( o.data );
@@ -679,7 +713,7 @@ namespace {
 
         bytes exchange( int c, const bytes& in, std::size_t given )
         {
-            if ( given == 0 || given > static_cast< std::size_t >( db.max_mtu ) )
+            if ( given == 0 || given > static_cast< std::size_t >( db.max_mtu ) + 64 )
                 given = db.max_mtu;
             if ( given < 23 )
                 given = 23;
@@ -692,7 +726,7 @@ namespace {
             if ( in.empty() )
                 return;
             ensure( c );
-            if ( given == 0 || given > static_cast< std::size_t >( db.max_mtu ) )
+            if ( given == 0 || given > static_cast< std::size_t >( db.max_mtu ) + 64 )
                 given = db.max_mtu;
             if ( given < 23 )
                 given = 23;
@@ -862,7 +896,7 @@ namespace {
         void output( int c, std::size_t given )
         {
             ensure( c );
-            if ( given == 0 || given > static_cast< std::size_t >( db.max_mtu ) )
+            if ( given == 0 || given > static_cast< std::size_t >( db.max_mtu ) + 64 )
                 given = db.max_mtu;
             std::uint8_t* ob = new std::uint8_t[ given ? given : 1 ];
             std::size_t   os = given;
